@@ -9,17 +9,18 @@ import (
 
 // Group is a batch of cases against one generated package under one API configuration.
 type Group struct {
-	Pkg   string            `json:"pkg"`
-	Kind  string            `json:"kind"` // pipeline | iface | codec | wire | concurrent
-	API   APIConfig         `json:"api"`
-	Cases []ReqCase         `json:"cases"`
-	Codec []CodecCase       `json:"codec"`
-	Wire  []WireCase        `json:"wire"`
-	Conc  *ConcurrentConfig `json:"conc"`
-	Fuzz  FuzzConfig        `json:"fuzz"`
-	Tag   string            `json:"tag"`
-	Base  string            `json:"base"`  // base URL path of the spec (normal form), for the client
-	Local bool              `json:"local"` // wire: obtain the client from API.LocalClient() instead of NewClient(origin + base, ...)
+	Pkg      string            `json:"pkg"`
+	Kind     string            `json:"kind"` // pipeline | iface | codec | wire | concurrent
+	API      APIConfig         `json:"api"`
+	Cases    []ReqCase         `json:"cases"`
+	Codec    []CodecCase       `json:"codec"`
+	Wire     []WireCase        `json:"wire"`
+	Conc     *ConcurrentConfig `json:"conc"`
+	Fuzz     FuzzConfig        `json:"fuzz"`
+	Tag      string            `json:"tag"`
+	Base     string            `json:"base"`     // base URL path of the spec (normal form), for the client
+	ByStatus bool              `json:"byStatus"` // wire: scripted handlers choose the response by the status it writes (see ProbeStatuses)
+	Local    bool              `json:"local"`    // wire: obtain the client from API.LocalClient() instead of NewClient(origin + base, ...)
 }
 
 // Main is called by the generated main.go of a scratch module: driver <jobs.json> <events.ndjson>
